@@ -44,7 +44,7 @@ static Severity g_sub_sev = SEVERITY_NULL; static int g_aggr_calls, g_sel_calls;
 Severity STEPaggregate::STEPread(istream &, ErrorDescriptor *err, const TypeDescriptor *, InstMgrBase *insts, int addFileId, const char *)
 { g_aggr_addfileid = addFileId; g_aggr_instances = insts; g_aggr_calls++; g_aggr_err = err; err->GreaterSeverity(g_sub_sev); return err->severity(); }   /* contract (units aggregate_cc, entaggr_cc): what went wrong is added to the caller's descriptor */
 Severity SDAI_Select::STEPread(istream &, ErrorDescriptor *err, InstMgrBase *instances, const char *, int addFileId, const char *)
-{ g_sel_addfileid = addFileId; g_sel_instances = instances; g_sel_calls++; g_sel_err = err; err->GreaterSeverity(g_sub_sev); return g_sub_sev; }   /* contract (unit select_cc): the severity of the read is returned and added to the caller's descriptor */
+{ g_sel_addfileid = addFileId; g_sel_instances = instances; g_sel_calls++; g_sel_err = err; if (nondet_int()) err->GreaterSeverity(g_sub_sev); return g_sub_sev; }   /* contract (unit select_cc): the severity of the read is returned; whether it is also in the caller's descriptor is left open */
 static TypeDescriptor *g_nonref_desc = (TypeDescriptor *)&g_nil_storage[8];
 const TypeDescriptor *AttrDescriptor::NonRefTypeDescriptor() const { return g_nonref_desc; }
 const TypeDescriptor *AttrDescriptor::AggrElemTypeDescriptor() const { return g_nonref_desc; }
